@@ -123,6 +123,9 @@ func noteLeak(n int) {
 }
 
 func leakBound() time.Duration {
+	if leaksSeen >= 10 {
+		return 300 * time.Millisecond
+	}
 	if leaksSeen >= 3 && waitBound > 1500*time.Millisecond {
 		return 1500 * time.Millisecond
 	}
@@ -1181,6 +1184,9 @@ func (rs *runState) runAttempt(att int, a AttemptPlan, dsnOverride string) {
 				return 150 * time.Millisecond
 			}
 			// once connections have been seen left open in several attempts the verdict is settled: keep the rest of the run short
+			if socksLeftOpen >= 10 {
+				return 250 * time.Millisecond
+			}
 			if socksLeftOpen >= 3 && waitBound > 1500*time.Millisecond {
 				return 1500 * time.Millisecond
 			}
